@@ -1,0 +1,102 @@
+//! Verification driver (compiled only with `--cfg metrics_verif`): exposes the exporter's private
+//! state / flush / payload writer to an external harness without any behaviour of its own.
+use std::sync::Arc;
+
+use metrics::{Key, Label};
+
+use crate::builder::AggregationMode;
+use crate::state::{FlushState, State, StateConfiguration};
+use crate::telemetry::TelemetryUpdate;
+use crate::writer::PayloadWriter;
+use crate::DogStatsDRecorder;
+
+pub struct Config {
+    pub aggressive: bool,
+    pub histogram_sampling: bool,
+    pub histogram_reservoir_size: usize,
+    pub histograms_as_distributions: bool,
+    pub global_labels: Vec<Label>,
+    pub global_prefix: Option<String>,
+    pub max_payload_len: usize,
+    pub length_prefix: bool,
+}
+
+/// The synchronous flush pipeline without the forwarder thread and socket.
+pub struct FlushDriver {
+    state: Arc<State>,
+    flush_state: FlushState,
+    writer: PayloadWriter,
+    telemetry: TelemetryUpdate,
+}
+
+impl FlushDriver {
+    pub fn new(cfg: Config) -> Self {
+        let state = Arc::new(State::new(StateConfiguration {
+            agg_mode: if cfg.aggressive { AggregationMode::Aggressive } else { AggregationMode::Conservative },
+            telemetry: false,
+            histogram_sampling: cfg.histogram_sampling,
+            histogram_reservoir_size: cfg.histogram_reservoir_size,
+            histograms_as_distributions: cfg.histograms_as_distributions,
+            global_labels: cfg.global_labels,
+            global_prefix: cfg.global_prefix,
+        }));
+        FlushDriver {
+            state,
+            flush_state: FlushState::default(),
+            writer: PayloadWriter::new(cfg.max_payload_len, cfg.length_prefix),
+            telemetry: TelemetryUpdate::default(),
+        }
+    }
+
+    pub fn recorder(&self) -> DogStatsDRecorder {
+        DogStatsDRecorder::new(Arc::clone(&self.state))
+    }
+
+    /// One flush cycle exactly as `Forwarder::run` performs it; returns the payloads in order.
+    pub fn flush(&mut self) -> Vec<Vec<u8>> {
+        self.telemetry.clear();
+        self.state.flush(&mut self.flush_state, &mut self.writer, &mut self.telemetry);
+        let mut out = Vec::new();
+        let mut payloads = self.writer.payloads();
+        while let Some(p) = payloads.next_payload() {
+            out.push(p.to_vec());
+        }
+        out
+    }
+}
+
+/// The payload writer alone, reused across drains the way the forwarder reuses it.
+pub struct WriterDriver {
+    writer: PayloadWriter,
+}
+
+impl WriterDriver {
+    pub fn new(max_payload_len: usize, length_prefix: bool) -> Self {
+        WriterDriver { writer: PayloadWriter::new(max_payload_len, length_prefix) }
+    }
+    /// Returns (payloads written, points dropped).
+    pub fn write_counter(&mut self, key: &Key, value: u64, ts: Option<u64>, prefix: Option<&str>, labels: &[Label]) -> (u64, u64) {
+        let r = self.writer.write_counter(key, value, ts, prefix, labels);
+        (r.payloads_written(), r.points_dropped())
+    }
+    pub fn write_gauge(&mut self, key: &Key, value: f64, ts: Option<u64>, prefix: Option<&str>, labels: &[Label]) -> (u64, u64) {
+        let r = self.writer.write_gauge(key, value, ts, prefix, labels);
+        (r.payloads_written(), r.points_dropped())
+    }
+    pub fn write_histogram(&mut self, key: &Key, values: Vec<f64>, rate: Option<f64>, prefix: Option<&str>, labels: &[Label]) -> (u64, u64) {
+        let r = self.writer.write_histogram(key, values, rate, prefix, labels);
+        (r.payloads_written(), r.points_dropped())
+    }
+    pub fn write_distribution(&mut self, key: &Key, values: Vec<f64>, rate: Option<f64>, prefix: Option<&str>, labels: &[Label]) -> (u64, u64) {
+        let r = self.writer.write_distribution(key, values, rate, prefix, labels);
+        (r.payloads_written(), r.points_dropped())
+    }
+    pub fn drain(&mut self) -> Vec<Vec<u8>> {
+        let mut out = Vec::new();
+        let mut payloads = self.writer.payloads();
+        while let Some(p) = payloads.next_payload() {
+            out.push(p.to_vec());
+        }
+        out
+    }
+}
